@@ -6,6 +6,7 @@ EmitAfter == {"Commit"}
 Emit == (hist # <<>> /\ hist[Len(hist)].a \in EmitAfter) => PrintT(<<"REPLAY", ToJson(hist)>>)
 
 G_C01_Exact      == Clean(C01_Exact)
+G_C02_Carried    == Clean(C02_Carried)
 G_C01_OnlyAdded  == Clean(C01_OnlyAdded)
 G_C03_Notes      == Clean(C03_Notes)
 G_C03_Blame      == Clean(C03_Blame)
